@@ -74,3 +74,95 @@ Example C02_examples :
   /\ move (T "a.a a") (MFind 97) 2 0 = 4%nat /\ move (T "a.b a") (MFind 97) 2 0 = 0%nat
   /\ move (T "  x") MFirstNonBlank 1 0 = 2%nat.
 Proof. vm_compute. repeat split. Qed.
+
+(** ** The operators d, y, c over these motions (Model/Ops.v, Vim's rules transcribed; the check ties the model to
+    Vim and to vicut case by case). *)
+From Vicut Require Import Model.Ops Proofs.OpsProofs.
+
+(** (6) [d] removes one stretch of the text and nothing else; the stretch is what the register holds; putting the
+    register back where it came from restores the text. *)
+Theorem C02_delete_locality :
+  forall (ins : text) (s : ostate) (lo0 hi0 : nat),
+    let t := o_text s in
+    let lo := clo t lo0 hi0 in let hi := chi t hi0 in
+    let s' := apply_op OpDelete ins s (RChar lo0 hi0) in
+    t = firstn lo t ++ slice t lo hi ++ skipn hi t /\
+    o_text s' = firstn lo t ++ skipn hi t /\
+    o_reg s' = Some (false, slice t lo hi) /\
+    firstn lo (o_text s') ++ slice t lo hi ++ skipn lo (o_text s') = t.
+Proof. exact delete_char_locality. Qed.
+Print Assumptions C02_delete_locality.
+
+(** (7) [y] never changes the text, whatever the motion gave; [y] and [d] over the same range fill the register alike. *)
+Theorem C02_yank_keeps_text :
+  forall (ins : text) (s : ostate) (r : orange), o_text (apply_op OpYank ins s r) = o_text s.
+Proof. exact yank_keeps_text. Qed.
+Print Assumptions C02_yank_keeps_text.
+Theorem C02_yank_delete_same_register :
+  forall (ins : text) (s : ostate) (r : orange),
+    r <> RNone -> (forall p, r <> RFail p) ->
+    o_reg (apply_op OpYank ins s r) = o_reg (apply_op OpDelete ins s r).
+Proof. exact yank_delete_same_register. Qed.
+Print Assumptions C02_yank_delete_same_register.
+
+(** (8) [c] puts the typed text in the place of the range. *)
+Theorem C02_change_locality :
+  forall (ins : text) (s : ostate) (lo0 hi0 : nat),
+    let t := o_text s in
+    let lo := clo t lo0 hi0 in let hi := chi t hi0 in
+    o_text (apply_op OpChange ins s (RChar lo0 hi0)) = firstn lo t ++ ins ++ skipn hi t /\
+    o_reg (apply_op OpChange ins s (RChar lo0 hi0)) = Some (false, slice t lo hi).
+Proof. exact change_char_locality. Qed.
+Print Assumptions C02_change_locality.
+
+(** (9) A motion that fails leaves text and register alone under every operator; a motion that covers nothing is a
+    no-op for d and y. *)
+Theorem C02_failed_motion_noop :
+  forall (k : opk) (ins : text) (s : ostate) (p : nat),
+    o_text (apply_op k ins s (RFail p)) = o_text s /\ o_reg (apply_op k ins s (RFail p)) = o_reg s.
+Proof. exact fail_is_noop. Qed.
+Print Assumptions C02_failed_motion_noop.
+Theorem C02_empty_motion_noop :
+  forall (k : opk) (ins : text) (s : ostate), k <> OpChange -> apply_op k ins s RNone = s.
+Proof. exact nothing_is_noop. Qed.
+Print Assumptions C02_empty_motion_noop.
+
+(** (10) [dd] / [yy] and the motions that become linewise take whole lines, with one line break at the end of the
+    register; the text keeps what is outside them. *)
+Theorem C02_delete_lines_locality :
+  forall (ins : text) (s : ostate) (a b : nat) (kc : bool),
+    let t := o_text s in
+    let '(x, y) := lines_span t a b in
+    o_text (apply_op OpDelete ins s (RLines a b kc)) = firstn x t ++ skipn y t /\
+    o_reg (apply_op OpDelete ins s (RLines a b kc))
+    = Some (true, slice t (line_start_from t (Nat.min a (length t))) (line_end t (Nat.min b (length t))) ++ [nl]).
+Proof. exact delete_lines_locality. Qed.
+Print Assumptions C02_delete_lines_locality.
+
+(** (11) [w] under an operator only goes forward and stays in the text, for every count; what [dw] / [yw] work on starts
+    at the cursor, and the adjustment of a motion that ends in column one only ever shortens the range. *)
+Theorem C02_op_w_forward :
+  forall (big : bool) (t : text) (count p : nat),
+    (p <= length t)%nat -> (p <= fwd_word_op count big t p <= length t)%nat.
+Proof. intros big t count p. exact (fwd_word_op_bounds big t count p). Qed.
+Print Assumptions C02_op_w_forward.
+Theorem C02_op_w_starts_at_cursor :
+  forall (k : opk) (t : text) (big : bool) (count i : nat), k <> OpChange ->
+    match op_range k t (MWord big) count i with
+    | RChar a _ => a = i
+    | RLines a _ _ => a = i
+    | RNone => True
+    | RFail _ => False
+    end.
+Proof. exact word_op_starts_at_cursor. Qed.
+Print Assumptions C02_op_w_starts_at_cursor.
+
+(** examples (each is what Vim 9 does): dw on the last word of a line does not join lines; dw from an empty line takes
+    the line; cw on a word is ce; d2ge that runs into the start of the buffer is cancelled *)
+Example C02_op_examples :
+  o_text (run_op OpDelete [] (T "a b" ++ [10] ++ T "c") (MWord false) 1 2) = T "a " ++ [10] ++ T "c"
+  /\ o_text (run_op OpDelete [] ([10] ++ T "a") (MWord false) 1 0) = T "a"
+  /\ o_text (run_op OpChange (T "Z") (T "ab cd") (MWord false) 1 0) = T "Z cd"
+  /\ run_op OpDelete [] (T "a b") (MBackEnd false) 2 2 = mkO (T "a b") 0 None
+  /\ o_text (run_lines OpDelete [] (T "a" ++ [10] ++ T "b" ++ [10] ++ T "c") 2 0) = T "c".
+Proof. vm_compute. repeat split. Qed.
